@@ -10,7 +10,9 @@ BATCH = 1
 TECHNIQUE = ("exhaustive evaluation over a finite parameter grid x every degree of the support up to a bound, "
              "against independently evaluated closed forms (no state space to explore: bounded exhaustive input "
              "enumeration only)")
-RULE = ("grid: a in {0.1,0.5,1,2}, mean in {0.5,1,2.5,7,30,120,720,800}, alpha in {2,2.5,3,4}, kappa in {0.05,1,5,25}; every k of the "
+RULE = ("grid: a in {0.01,0.1,0.5,1,2,37}, mean in {0.01,0.5,1,2.5,7,30,120,171.5,720,800}, alpha in {2,2.2,2.5,3,3.7,4}, kappa in "
+        "{0.05,0.3,1,5,25,150,1000}; two-call histories (the same factory called first with a parameter 0.04 / 0.004 "
+        "away, in both orders); every k of the "
         "support up to 200 (quick) / 400 (thorough); values compared with closed forms evaluated independently (exact "
         "factorials, zeta / polylog by direct summation with Euler-Maclaurin tail) within the documented truncation "
         "tolerance; partial sums + analytic tail compared with 1; non-trivial = one (distribution, parameters, k)")
@@ -40,15 +42,38 @@ def polylog(s, z, N=200000):
     return tot
 
 
+A_GRID = (0.01, 0.1, 0.5, 1, 2, 37)
+MEAN_GRID = (0.01, 0.5, 1, 2.5, 7, 30, 120, 171.5, 720, 800)
+ALPHA_GRID = (2, 2.2, 2.5, 3, 3.7, 4)
+KAPPA_GRID = (0.05, 0.3, 1, 5, 25, 150, 1000)
+NEAR = (0.04, 0.004)   # a factory is also called right after / right before the same factory with a nearby parameter
+
+
 def instances(tier, seed):
-    for a in (0.1, 0.5, 1, 2):
-        yield {"dist": "exponential", "params": [a]}
-    for m in (0.5, 1, 2.5, 7, 30, 120, 720, 800):
-        yield {"dist": "poisson", "params": [m]}
-    for al in (2, 2.5, 3, 4):
-        yield {"dist": "power_law", "params": [al]}
-        for ka in (0.05, 1, 5, 25):
-            yield {"dist": "scale_free_cut_off", "params": [al, ka]}
+    base = []
+    for a in A_GRID:
+        base.append({"dist": "exponential", "params": [a]})
+    for m in MEAN_GRID:
+        base.append({"dist": "poisson", "params": [m]})
+    for al in ALPHA_GRID:
+        base.append({"dist": "power_law", "params": [al]})
+        for ka in KAPPA_GRID:
+            base.append({"dist": "scale_free_cut_off", "params": [al, ka]})
+    for inst in base:
+        yield inst
+    # histories of two factory calls: the factory is first called (and its function evaluated) with a neighbouring
+    # parameter, then with the parameter under test - in both directions
+    for inst in base:
+        if inst["dist"] == "poisson" and inst["params"][0] > 200:
+            continue
+        if inst["dist"] == "scale_free_cut_off" and inst["params"][1] not in (1, 25):
+            continue
+        for i in range(len(inst["params"])):
+            for delta in NEAR:
+                near = list(inst["params"])
+                near[i] = near[i] + delta
+                yield {"dist": inst["dist"], "params": list(inst["params"]), "warm": near}
+                yield {"dist": inst["dist"], "params": near, "warm": list(inst["params"])}
 
 
 def run_instance(inst, tier):
@@ -57,6 +82,11 @@ def run_instance(inst, tier):
     kmax = 200 if tier == "quick" else 400
     d, ps = inst["dist"], inst["params"]
     try:
+        if inst.get("warm"):
+            g = getattr(gcmpy, d)(*inst["warm"])
+            for k in (1, 2, 3, 50):
+                g(k)
+            res.flags.add("two-call-history")
         f = getattr(gcmpy, d)(*ps)
     except Exception as e:
         res.violation(f"C19:{d}:factory-raises", f"{d}{tuple(ps)} raised {e!r}", inst)
